@@ -500,6 +500,20 @@ class MdibReplayer:
         self.mgr.write_entity(ent)
         self.handed[('E', rec['h'])] = ent
 
+    def _do_DWriteEntities(self, rec):
+        ents = []
+        for h in rec['hs']:
+            ent = self.mdib.entities.by_handle(self.conc(h))
+            apply_tok(ent.descriptor, rec['t'])
+            apply_tok(ent.state, rec['t'])
+            ents.append(ent)
+        self.mgr.write_entities(ents)
+        for h, ent in zip(rec['hs'], ents):
+            self.handed[('E', h)] = ent
+
+    def _do_RemoveEntity(self, rec):
+        self.mgr.remove_entity(self.mdib.entities.by_handle(self.conc(rec['h'])))
+
     def _do_WriteEntities(self, rec):
         ents = []
         for h in rec['hs']:
